@@ -84,7 +84,18 @@ fn fixed_cases() -> Vec<Case> {
         ("slot in a function", "fn g(p) {\nreturn $\"[${p}|${p + p}]\"\n}\nprint(g(\"é\"))\nprint(g(\"\"))\n".to_string()),
         ("slots see the current scope", "x := \"outer\"\n{\nx := \"inner\"\nprint($\"${x}\")\n}\nprint($\"${x}\")\nfor [i, c] in \"ab\" {\nprint($\"${c}${c}\")\n}\n".to_string()),
     ];
-    progs.into_iter().map(|(n, s)| Case::new(s, T_FIXED, n.to_string())).collect()
+    let mut out: Vec<Case> = progs.into_iter().map(|(n, s)| Case::new(s, T_FIXED, n.to_string())).collect();
+    // range reads on multi-byte text: every bound pair, also beyond the byte length
+    for s in ["añb", "é€", "", "x"] {
+        let n = s.len() as i64;
+        for a in -1..=n + 2 {
+            for b in -1..=n + 2 {
+                out.push(Case::new(format!("s := \"{}\"\na := {}\nb := {}\nt := s[a:b]\nprint(\"sliced\")\nprint((s[:a] + t + s[b:]) == s)\n", s, a, b), T_FIXED, format!("range {}:{} of {:?}", a, b, s)));
+            }
+            out.push(Case::new(format!("s := \"{}\"\na := {}\nt := s[a:]\nprint(\"tail\")\nu := s[:a]\nprint((u + t) == s)\n", s, a), T_FIXED, format!("open ranges at {} of {:?}", a, s)));
+        }
+    }
+    out
 }
 
 impl Check for C15 {
